@@ -493,7 +493,8 @@ pub fn c07_strategy(max_reqs: usize) -> impl Strategy<Value = NetCase> {
         (
             proptest::collection::vec(req_strategy(n, false, false), 0..=max_reqs),
             0..n,
-            proptest::collection::vec((0..n, 0u16..90, 0u16..24).prop_map(|(server, at, arg)| FaultSpec { server, at, kind: 7, arg }), 0..3),
+            // (the high bit of arg: over TLS the holder completes the handshake before it idles)
+            proptest::collection::vec((0..n, 0u16..90, 0u16..24, any::<bool>()).prop_map(|(server, at, arg, hs)| FaultSpec { server, at, kind: 7, arg: arg | if hs { 0x8000 } else { 0 } }), 0..3),
         )
             .prop_map(move |(reqs, srv, mut faults)| {
                 // an HTTP/1 connection that has received part of a request head is, for hyper, an
@@ -505,7 +506,7 @@ pub fn c07_strategy(max_reqs: usize) -> impl Strategy<Value = NetCase> {
                 faults.retain(|f| servers[f.server as usize % servers.len()] % 3 != 1);
                 for f in faults.iter_mut() {
                     if servers[f.server as usize % servers.len()] % 3 == 0 {
-                        f.arg = 0;
+                        f.arg &= 0x8000;
                     }
                 }
                 NetCase {
